@@ -296,3 +296,108 @@ func earlyReturn(body *ast.BlockStmt, pos token.Pos) token.Pos {
 	})
 	return found
 }
+
+// W-5 — the JSON text of a record is what the encoder produced (C04).
+func init() {
+	register(&Rule{
+		ID: "W-5", Props: []string{"C04", "C02"}, Min: 1,
+		Doc: `well-formedness of one JSON record is delegated to the encoder and to nobody else: in pkg/obiformats the bytes returned by JSONRecord originate from a json Marshal* call and
+are not passed through textual post-processing (strconv.Quote/Unquote, strings.Replace, regexp …) — rewriting escape sequences in marshalled text turns "\\u0041" typed by a user,
+a control character or a Windows path into an invalid escape, a raw control byte or a panic.`,
+		Run: runW5,
+	})
+}
+
+func runW5(c *Ctx, s *Sink) {
+	fd, p := c.FindFunc("pkg/obiformats", "JSONRecord")
+	key := "pkg/obiformats.JSONRecord:encoder-output"
+	if fd == nil {
+		s.Undecided(nil, key, 0, "function not found")
+		return
+	}
+	info := p.TypesInfo
+	defs := collectDefsTuple(info, fd)
+	isMarshal := func(f *types.Func) bool {
+		return f != nil && f.Pkg() != nil && strings.HasSuffix(f.Pkg().Path(), "json") && strings.HasPrefix(f.Name(), "Marshal")
+	}
+	textual := func(f *types.Func) bool {
+		if f == nil || f.Pkg() == nil {
+			return false
+		}
+		switch f.Pkg().Path() {
+		case "strconv", "strings", "regexp", "bytes":
+			switch f.Name() {
+			case "Quote", "Unquote", "Replace", "ReplaceAll", "ReplaceAllString", "ReplaceAllLiteralString", "Map", "NewReplacer":
+				return true
+			}
+		}
+		return false
+	}
+	// does a module function apply textual rewriting (one level)?
+	rewrites := func(f *types.Func) string {
+		d, dp := c.DeclOf(f)
+		if d == nil || d.Body == nil {
+			return ""
+		}
+		found := ""
+		ast.Inspect(d.Body, func(n ast.Node) bool {
+			if call, ok := n.(*ast.CallExpr); ok {
+				if g := callee(dp.TypesInfo, call); textual(g) {
+					found = g.Pkg().Name() + "." + g.Name()
+				}
+			}
+			return true
+		})
+		return found
+	}
+	var bad []string
+	marshal := false
+	var trace func(e ast.Expr, depth int)
+	trace = func(e ast.Expr, depth int) {
+		if depth > 6 {
+			return
+		}
+		e = ast.Unparen(e)
+		switch x := e.(type) {
+		case *ast.Ident:
+			for _, d := range defs[info.ObjectOf(x)] {
+				if d != nil {
+					trace(d, depth+1)
+				}
+			}
+		case *ast.CallExpr:
+			f := callee(info, x)
+			switch {
+			case isMarshal(f):
+				marshal = true
+			case textual(f):
+				bad = append(bad, c.Pos(x.Pos())+": "+f.Pkg().Name()+"."+f.Name())
+			case f != nil && strings.HasPrefix(f.Pkg().Path(), modPath):
+				if w := rewrites(f); w != "" {
+					bad = append(bad, c.Pos(x.Pos())+": "+f.Name()+" (applies "+w+")")
+				}
+				for _, a := range x.Args {
+					trace(a, depth+1)
+				}
+			default:
+				for _, a := range x.Args {
+					trace(a, depth+1)
+				}
+			}
+		}
+	}
+	ast.Inspect(fd.Body, func(n ast.Node) bool {
+		if r, ok := n.(*ast.ReturnStmt); ok && len(r.Results) == 1 {
+			trace(r.Results[0], 0)
+		}
+		return true
+	})
+	switch {
+	case len(bad) > 0:
+		s.Fail(nil, key, fd.Pos(), "the marshalled JSON of a record is rewritten as text before it is written ("+strings.Join(bad, "; ")+"): a title containing \\uXXXX, a control character or a backslash sequence yields an invalid escape, a raw control byte or a failure of the rewriting — the output is not a valid JSON array")
+	case !marshal:
+		s.Undecided(nil, key, fd.Pos(), "the returned bytes do not come from a json Marshal* call")
+	default:
+		s.Pass(nil, key, fd.Pos(), "the record text is the encoder's output, unmodified")
+	}
+}
